@@ -729,10 +729,14 @@ func runC06(c *eng.Ctx) {
 			if ph, ok := rv.(*ssa.Phi); ok {
 				okRec = true
 				le := eng.CmpEdges(fn, eng.LoadNamed("Index", eng.Param("l")), eng.LoadNamed("Index", eng.LoadNamed("latestRecoveredLog", nil)), eng.LE)
+				isLE := eng.RelVal(eng.LoadNamed("Index", eng.Param("l")), eng.LoadNamed("Index", eng.LoadNamed("latestRecoveredLog", nil)), eng.LE)
 				for i, e := range ph.Edges {
 					k, isC := e.(*ssa.Const)
 					if !isC {
-						okRec = false
+						// `recovered := latest != nil && l.Index <= latest.Index`: the operand IS the comparison
+						if !isLE(e) {
+							okRec = false
+						}
 						continue
 					}
 					if k.Value.String() == "true" {
